@@ -889,7 +889,7 @@ func c18Record(c *c18Case, f c18Facts) {
 }
 
 func TestCheckPodGrouper(t *testing.T) {
-	kit.Run(t, kit.Budget{Quick: 20000, Thorough: 500000}, func(t *rapid.T) {
+	kit.Run(t, kit.Budget{Quick: 20000, Thorough: 400000}, func(t *rapid.T) {
 		c := c18GenCase(t)
 		sig, msg, f, trace := c18Judge(c)
 		if sig == "harness-error" {
